@@ -45,8 +45,8 @@ import (
 // ---------------------------------------------------------------- decoded records
 
 type rec struct {
-	Kind    int // 0 series, 1 samples, 2 exemplars, 3 tombstones, 4 metadata, 5 unknown
-	K       int // sample kind
+	Kind    int        // 0 series, 1 samples, 2 exemplars, 3 tombstones, 4 metadata, 5 unknown
+	K       int        // sample kind
 	Pairs   [][2]int64 // series (ref, lab) / metadata (ref, meta)
 	Triples [][3]int64 // samples / exemplars (ref, t, v)
 	Stones  []stone
@@ -288,25 +288,25 @@ func readWAL(in *interner, dir string, cache segCache) walDir {
 // ---------------------------------------------------------------- the world
 
 type world struct {
-	root   string
-	walDir string
-	head   *tsdb.Head
-	nheads int
-	in     *interner
-	seen   map[int]int // records already reported, per segment
-	cache  segCache
+	root    string
+	walDir  string
+	head    *tsdb.Head
+	nheads  int
+	in      *interner
+	seen    map[int]int // records already reported, per segment
+	cache   segCache
 	logName string
-	events []string
-	obs    []string
-	desc   []string
-	racy   map[int64]bool // label sets that were evicted (full-range tombstone in the log)
+	events  []string
+	obs     []string
+	desc    []string
+	racy    map[int64]bool // label sets that were evicted (full-range tombstone in the log)
 	viol    []string
 	shape   string
 	metaDup bool
 
 	// statistics
 	effective, restarts, gcDeleted, evicted, dupLabs, dropped int
-	labRefs                                                  map[int64]map[uint64]bool
+	labRefs                                                   map[int64]map[uint64]bool
 }
 
 func (w *world) open(mv int64) {
@@ -626,7 +626,7 @@ func runCase(outDir string, seed uint64, idx int, corpus int) (string, map[strin
 	active[0] = true
 
 	now := int64(1000 + r.Intn(500))
-	g := int64(math.MinInt64) // highest truncation time so far
+	g := int64(math.MinInt64)     // highest truncation time so far
 	floor := int64(math.MinInt64) // minValidTime of the last Init
 	nops := 14 + r.Intn(30)
 	if corpus >= 0 {
@@ -783,7 +783,6 @@ func runCase(outDir string, seed uint64, idx int, corpus int) (string, map[strin
 	return term, desc, w
 }
 
-
 // ---------------------------------------------------------------- agent DB histories
 
 func agentState(db *agent.DB, in *interner) (refs []int64, deleted [][2]int64) {
@@ -831,6 +830,7 @@ func runAgentCase(outDir string, seed uint64, idx int) (string, map[string]any, 
 	active[0] = true
 	now := int64(1000 + r.Intn(500))
 	cnt := 0
+	maxTS := int64(math.MinInt64)
 	commit := func() {
 		app := db.Appender(context.Background())
 		for i, l := range lsets {
@@ -921,7 +921,17 @@ func runAgentCase(outDir string, seed uint64, idx int) (string, map[string]any, 
 			if len(orphans) > 0 && allDup && w.shape == "" {
 				w.shape = "agent-duplicate-ref-orphan"
 				w.desc = append(w.desc, fmt.Sprintf("FINDING agent-duplicate-ref-orphan: checkpoint.%08d + segments hold samples/exemplars of duplicate refs %v without series record", post.CpIdx, orphans))
+			} else if len(orphans) > 0 && ts < maxTS && w.shape == "" {
+				// same root cause, other trigger: a truncation time LOWER than an earlier one (the run loop's ts
+				// drops when a remote-write queue is added) keeps samples of series that an earlier, later-timed
+				// truncation already garbage collected and whose record is dropped by segment number
+				w.shape = "agent-lower-mint-orphan"
+				w.desc = append(w.desc, fmt.Sprintf("FINDING agent-lower-mint-orphan: truncate(%d) after truncate(%d): checkpoint.%08d + segments hold samples/exemplars of refs %v without series record", ts, maxTS, post.CpIdx, orphans))
 			}
+
+		}
+		if ts > maxTS {
+			maxTS = ts
 		}
 		w.desc = append(w.desc, fmt.Sprintf("agent-truncate(%d) gone=%v cp=%d", ts, gone, post.CpIdx))
 	}
@@ -946,7 +956,11 @@ func runAgentCase(outDir string, seed uint64, idx int) (string, map[string]any, 
 			active[i] = !active[i]
 			w.desc = append(w.desc, fmt.Sprintf("flip %d -> %v", i, active[i]))
 		case k < 80:
-			truncate(now - int64(r.Intn(1200)))
+			ts := now - int64(r.Intn(1200))
+			if ts < maxTS && !r.Chance(1, 6) { // truncation times mostly grow
+				ts = maxTS
+			}
+			truncate(ts)
 		case k < 90:
 			_, err := db.VerifC15WAL().NextSegment()
 			must(err)
